@@ -212,6 +212,9 @@ void NiGeometryData::Create(NiVersion&,
 
 	bounds = BoundingSphere(vertices);
 
+	// Keep the vertex color array at the new vertex count
+	SetVertexColors(hasVertexColors);
+
 	if (uvs) {
 		size_t uvCount = uvs->size();
 		if (uvCount == numVertices) {
